@@ -127,7 +127,8 @@ def gen_file(rng, rep):
     rng.shuffle(axes_pool)
     errlayout = rng.choice(['total', 'stat', 'stat+syst', 'stat+systpm', 'statpm+syst', 'all', 'stat+norm'])
     cols = []           # column roles in file order
-    pre = [('id', str(rng.randint(2000, 9999))), ('editor', 'verif'), ('collaboration', 'MOCK'),
+    # ids collide on purpose (files loaded one after another in one session must not influence each other)
+    pre = [('id', str(rng.choice([2001, 2002, 2003]) if rng.random() < 0.4 else rng.randint(2000, 9999))), ('editor', 'verif'), ('collaboration', 'MOCK'),
            ('process', process), ('year', str(rng.randint(1990, 2030))),
            ('frame', rng.choice(['Trento', 'BMK'])),
            ('in1particle', rng.choice(['e', 'e-', 'e+', 'ep', 'em'])), ('in2particle', 'p')]
